@@ -54,9 +54,13 @@ pub fn zero_fees() -> PoolFee {
 impl<'a> W<'a> {
     /// a world with `npools` constant-product pools whose LP tokens are distributed to users u2..u5
     pub fn new(cfg: SysCfg, npools: usize, t: &'a mut Tracer, name: &str) -> W<'a> {
+        Self::new_ids(cfg, &["a", "b", "c"][..npools], t, name)
+    }
+    /// as `new`, with the pools' identifiers chosen by the scenario (e.g. identifiers that differ only by letter case)
+    pub fn new_ids(cfg: SysCfg, ids: &[&str], t: &'a mut Tracer, name: &str) -> W<'a> {
+        let npools = ids.len();
         let mut s = Sys::new(cfg);
         let mut lps = vec![];
-        let ids = ["a", "b", "c"];
         let pairs = [("uusdc", "uusdt"), ("uusd", "uweth"), ("uom", "uusdc")];
         let owner = s.users[0].clone();
         let mut fee_funds = vec![s.cfg.pool_fee.clone()];
@@ -953,6 +957,22 @@ fn sc_emergency_without_any_farm(t: &mut Tracer) {
     w.claim(&c, None, &[]);
 }
 
+/// two LP tokens whose denoms differ only by letter case: closing part of a position names its own token, nothing that looks like it
+fn sc_lookalike_lp_denoms(t: &mut Tracer) {
+    let mut w = W::new_ids(SysCfg::default(), &["abc", "ABC"], t, "lookalike_lp_denoms");
+    let (lp, lp2) = (w.lps[0].clone(), w.lps[1].clone());
+    let (b, c) = (w.user(1), w.user(2));
+    w.pos_create(&b, Some("mine".into()), DAY, None, &[coin(10_000, lp.clone())]);
+    w.pos_create(&c, Some("other".into()), DAY, None, &[coin(10_000, lp2.clone())]);
+    w.pos_close(&b, "u-mine", Some(coin(4_000, lp2.clone())), &[]); // the look-alike: refused
+    w.pos_expand(&b, "u-mine", &[coin(1_000, lp2.clone())]); // refused
+    w.pos_close(&b, "u-mine", Some(coin(4_000, lp.clone())), &[]);
+    w.pos_close(&b, "u-mine", None, &[]);
+    w.advance(DAY);
+    w.pos_withdraw(&b, "u-mine", None, &[]);
+    w.pos_withdraw(&b, "p-1", None, &[]);
+}
+
 /// the emergency flag on positions that are already unlocked: at the expiry second, 12 hours and 11 days later - no penalty
 fn sc_emergency_flag_after_unlock(t: &mut Tracer) {
     let mut w = W::new(SysCfg::default(), 1, t, "emergency_flag_after_unlock");
@@ -1258,6 +1278,7 @@ pub fn run(rng: &mut StdRng, thorough: bool, t: &mut Tracer) {
     sc_alternating_lp_positions(t);
     sc_unlock_range_narrowed(t);
     sc_emergency_flag_after_unlock(t);
+    sc_lookalike_lp_denoms(t);
     sc_emergency_without_any_farm(t);
     sc_autoclose_one_owner_two_tokens(t);
     sc_emergency_with_ended_farm(t);
